@@ -146,7 +146,9 @@ pub fn main(a: Args) -> i32 {
             let before = tree_of(&hub);
             let stale = if directed { step == 1 } else { step > 0 && nclients > 1 && r.chance(1, 4) };
             let via_ssh = if directed { false } else { r.chance(1, 3) };
-            let target = if via_ssh { format!("hubhost:{}", hub) } else { hub.clone() };
+            // host aliases of several shapes (an alias is whatever ssh_config names: one letter, dotted, user@host)
+            let hosts = ["hubhost", "h", "C", "hub.example", "me@hubhost", "10.0.0.7"];
+            let target = if via_ssh { format!("{}:{}", hosts[(h + step as usize) % hosts.len()], hub) } else { hub.clone() };
             let (obs, listing, at_puts, class);
             if !stale {
                 obs = run_sync(&copia, &ldir, &target, &standin, &bindir);
